@@ -229,6 +229,7 @@ type ValOpts struct {
 	NilChance   int // 1/N chance of nil for pointers, maps, slices, interfaces
 	NoEmptyKeys bool
 	BigStrings  bool // occasionally produce multi-KiB strings dense in characters that need escaping
+	BigSlices   bool // occasionally produce slices of 7..300 elements (growth steps of the decoder's slices and of the output buffer)
 }
 
 var sampleStrings = []string{"", "a", "hello", "héllo", "日本語", "😀", "<tag>&amp;", "line1\nline2", "tab\t", `quote"back\slash`, "  ", "\x00\x1f", "/path/to", "0", "null", "true", "-1.5e3", " ", "k<x>&"}
@@ -366,6 +367,15 @@ func (r *Rng) fill(v reflect.Value, o *ValOpts, depth int) {
 			return
 		}
 		n := r.SmallLen(o.MaxLen)
+		if o.BigSlices && depth <= 2 && r.Chance(1, 14) {
+			n = []int{7, 8, 9, 15, 16, 17, 31, 32, 33, 63, 64, 65, 130, 300}[r.Intn(14)]
+			switch t.Elem().Kind() {
+			case reflect.Struct, reflect.Map, reflect.Slice, reflect.Array, reflect.Interface:
+				if n > 65 {
+					n = 65 - n%3 // keep documents of composite elements moderate
+				}
+			}
+		}
 		if depth > 3 && n > 2 {
 			n = 2
 		}
